@@ -287,7 +287,10 @@ def conforms_x(v, s, named, tuple_notation=True, strict=False):
                 if branch_label(b) == v[0]:
                     return conforms_x(v[1], b, named, tuple_notation, strict)
             return False
-        return any(conforms_x(v, b, named, tuple_notation, strict) for b in s)
+        cands = s
+        if isinstance(v, dict) and v.get("-type") is not None:     # explicitly hinted: only the record branch of that name
+            cands = [b for b in s if tname(b, named) in ("record", "error") and resolve(b, named)["name"] == v["-type"]]
+        return any(conforms_x(v, b, named, tuple_notation, strict) for b in cands)
     t = s if isinstance(s, str) else s["type"]
     if t == "array":
         return isinstance(v, (list, tuple, bytes, bytearray)) and all(conforms_x(x, s["items"], named, tuple_notation, strict) for x in v)
